@@ -268,6 +268,8 @@ fn op_kind(op: &Op) -> &'static str {
         Op::SudoParams { .. } => "sudo_params",
         Op::WlAddMember { .. } => "wl_add_member",
         Op::Migrate { .. } => "migrate",
+        Op::Burn { .. } => "holder_burn",
+        Op::TransferNft { .. } => "holder_transfer",
     }
 }
 
